@@ -172,6 +172,8 @@ def random_raw(rng, sig, star=None):
                 c = [n for n in pool if n not in ns and (n not in used or rng.random() < 0.15)]
                 if c:
                     ns.append(rng.choice(c))
+            if ns and rng.random() < 0.12:
+                ns = ns + [rng.choice(ns)]  # a repeated key inside one display: the last pair wins
             raw.append(["kl", ns])
             used += ns
         elif star:
@@ -249,6 +251,17 @@ def guided_raw(rng, sig):
     return raw
 
 
+def dedup_last(names):
+    """keys of a dict display as CPython (and the binder) see them: a repeated key keeps its
+    LAST value; the binder walks the display in reverse, so the surviving keys are the last
+    occurrences, in source order"""
+    out = []
+    for i, n in enumerate(names):
+        if n not in names[i + 1 :]:
+            out.append(n)
+    return out
+
+
 def is_concrete(raw):
     return not any(r[0] in ("su", "ku") for r in raw)
 
@@ -293,7 +306,7 @@ def enc_raw(raw):
         elif r[0] == "k":
             out.append(f"k {CODE[r[1]]}")
         elif r[0] == "kl":
-            out.append("kl " + " ".join(str(CODE[n]) for n in r[1]))
+            out.append("kl " + " ".join(str(CODE[n]) for n in dedup_last(r[1])))
     return ",".join(out)
 
 
@@ -305,7 +318,7 @@ def flat_counts(raw):
         if r[0] == "k":
             kws.append(r[1])
         elif r[0] == "kl":
-            kws += r[1]
+            kws += list(dict.fromkeys(r[1]))  # CPython: a repeated key keeps its first position (and its last value)
     return npos, kws
 
 
@@ -529,7 +542,7 @@ def expansions(sig, raw):
         if r[0] == "k":
             explicit.append(r[1])
         elif r[0] == "kl":
-            explicit += r[1]
+            explicit += dedup_last(r[1])
     fresh = [n for n in ALLNAMES if n not in explicit and n not in [p[0] for p in sig]][:1]
     cands = [p[0] for p in sig if p[0] not in explicit] + fresh
     # several *xs: only the total matters, but "every star-argument non-empty" needs >= nsu
@@ -651,6 +664,29 @@ def run_modules(batches):
 
 
 # ---------------------------------------------------------------------------
+
+
+def dict_display_last_wins():
+    """Which pair of a `**{...}` display with a repeated constant key reaches the parameter?
+    CPython: the last.  Returns the list of shapes on which the FIRST pair won."""
+    I = _impl()
+    S, V, C = I["S"], I["V"], I["Composite"]
+    bad = []
+    shapes = [[("b", 0), ("b", 1)], [("a", 0), ("b", 1), ("a", 2)], [("b", 0), ("a", 1), ("b", 2), ("b", 3)]]
+    for shape in shapes:
+        d = V.DictIncompleteValue(dict, [V.KVPair(V.KnownValue(k), V.KnownValue(("v", i))) for k, i in shape])
+        ctx = S._CanAssignBasedContext(I["ck"])
+        pre = S.preprocess_args([(C(d), I["KWARGS"])], ctx)
+        if pre is None:
+            bad.append({"display": shape, "observed": "rejected"})
+            continue
+        want = {}
+        for k, i in shape:
+            want[k] = i
+        got = {k: c.value.val[1] for k, (dp, c) in pre.keywords.items()}
+        if got != want:
+            bad.append({"display": shape, "observed": got, "expected (CPython: last value wins)": want})
+    return bad
 
 
 def gen_files():
@@ -906,6 +942,17 @@ def run(tier: str, replay: str | None = None):
             if mv != acc:
                 e2e_bad.append({"input": payload, "module_accepts": mv, "bind_arguments_accepts": acc})
 
+    # 5d. a repeated constant key inside one `**{...}` display: the last pair must win
+    dup_bad = dict_display_last_wins() if not replay else []
+    if dup_bad:
+        first_wins = all(isinstance(b["observed"], dict) and all(b["observed"][k] == min(i for kk, i in b["display"] if kk == k) for k in b["observed"]) for b in dup_bad)
+        if first_wins:
+            # the unrepaired mechanism: covered_keys is never populated, the FIRST pair wins
+            rep.known("C05-dict-display-first-key-wins", KNOWN_TEXT["C05-dict-display-first-key-wins"])
+            hist["known"]["C05-dict-display-first-key-wins"] = len(dup_bad)
+        else:
+            failing.append(({"sig": [], "raw": [], "def": "def g(a, b)", "call": "g(**{...})", "display": dup_bad[0]["display"]}, str(dup_bad[0]["observed"]), "the last pair of a dict display wins for a repeated key"))
+
     # 6. verdicts
     for payload, obs, exp in failing[:10]:
         rep.violation({"kind": "failing-input", "input": payload, "observed": obs, "expected": exp, "how_to_run": "./check C05 --replay <this file>", "oracle": "CPython executes the call"})
@@ -974,6 +1021,8 @@ def run(tier: str, replay: str | None = None):
 
 
 KNOWN_TEXT = {
+    "C05-dict-display-first-key-wins": "for a dict display with a repeated constant key passed as **kwargs the FIRST pair reaches the parameter (covered_keys is never populated in _preprocess_kwargs_kv_pairs); "
+    "CPython keeps the last: g(1, **{'b': x, 'b': 'x'}) is not reported for def g(a, b: int). Repair proposed: repo_fixes/C05-dict-display-last-key-wins.diff",
     "C05-partial-unchecked": "calls to a functools.partial object are never checked (pyanalyze sees typeshed's partial.__call__(*args, **kwargs)): "
     "p = functools.partial(f, 1) for def f(a, b); p() and p(2, 3, 4) are accepted although binding the wrapped function raises TypeError",
     "C05-keyword-after-star-args": "f(*args, b=1) for def f(a, b) is rejected ('may be filled from both *args and a keyword argument') although f(*[1], b=1) binds",
